@@ -5,7 +5,7 @@ use crate::rng::Rng;
 use crate::semi::*;
 use rsdd::constants::primes;
 use rsdd::util::semirings::{
-    BBRing, BBSemiring, ExpectedUtility, FiniteField, JoinSemilattice, MeetSemilattice, RealSemiring, Semiring,
+    BBRing, BBSemiring, ExpectedUtility, FiniteField, JoinSemilattice, MeetSemilattice, Semiring,
 };
 use serde_json::json;
 use std::cmp::Ordering;
